@@ -162,6 +162,10 @@ def unsplit (scheme netloc path query fragment : Str) : Str :=
   let url := if !query.isEmpty then url ++ ['?'] ++ query else url
   if !fragment.isEmpty then url ++ ['#'] ++ fragment else url
 
+/-- `urlunparse`: `;params` is re-attached to the path, the rest is `urlunsplit` -/
+def unparse6 (scheme netloc path params query fragment : Str) : Str :=
+  unsplit scheme netloc (if params.isEmpty then path else path ++ [';'] ++ params) query fragment
+
 def gemini : Str := ['g', 'e', 'm', 'i', 'n', 'i']
 
 /-- the host part of the authority: `netloc.rpartition("@")[2]` -/
